@@ -208,6 +208,7 @@ func genIlv(t *rapid.T) Case {
 		if alike && i > 0 {
 			f := c.Steps[0]
 			s.Via, s.Mode, s.RT, s.ErrPath, s.AppType, s.Resp, s.JWTAccess = f.Via, f.Mode, f.RT, f.ErrPath, f.AppType, f.Resp, f.JWTAccess
+			s.RTReq, s.RTReg = f.RTReq, append([]string(nil), f.RTReg...)
 			s.ErrKind, s.ErrCode, s.ErrDesc, s.ErrRef = f.ErrKind, f.ErrCode, f.ErrDesc, f.ErrRef
 			s.Code, s.IDToken, s.AccessToken, s.TokenType, s.ExpiresIn = f.Code+fmt.Sprint(i), f.IDToken, f.AccessToken, f.TokenType, f.ExpiresIn
 			for _, fl := range []string{"err_code", "err_desc", "code", "id_token", "access_token", "token_type"} {
